@@ -559,6 +559,11 @@ def setup():
     return rc_all
 
 
+def cfg_groups(c):
+    """every Coq group a property's check compiles: its own, those of extra statement files, those of borrowed harnesses"""
+    return {c["group"]} | {x["group"] for x in c.get("extra_props", [])} | {h["group"] for h in c.get("harness", []) if h.get("group")}
+
+
 def manifest():
     cfgs = all_cfgs()
     ip = os.path.join(VERIF, "props", "INTEGRATED")
@@ -587,9 +592,15 @@ def manifest():
                    enable="go test -tags verif -vet=off -overlay <overlay.json generated by tools/check.py> — harness files are add-only *_test.go files kept under /verif/harness/overlay and injected at build time; nothing is written into /repo",
                    baseline_off_cmd="cd /repo && go test -vet=off -count=1 -timeout 25m ./...",
                    source_commits=[], add_only=True),
-        engines=[dict(name="coq-" + g, path="coq/" + g, serves_properties=sorted(c["id"] for c in cfgs if c["group"] == g),
+        engines=[dict(name="coq-" + g, path="coq/" + g,
+                      serves_properties=sorted(c["id"] for c in cfgs if g in cfg_groups(c)),
                       kind_free_text="Coq 8.16.1 model + theorems; correspondence via tools/check.py")
-                 for g in sorted({c["group"] for c in cfgs})],
+                 for g in sorted({g for c in cfgs for g in cfg_groups(c)})] +
+                [dict(name=t, path="tools/" + t, serves_properties=sorted(c["id"] for c in cfgs if any(("tools/" + t) in " ".join(x["cmd"]) for x in c.get("gen", []))),
+                      kind_free_text=txt) for t, txt in (
+                    ("go2coq", "translator Go -> Gallina for the pure validators and accessors; output regenerated from /repo on every run and proved equal to the hand model"),
+                    ("sqlgen", "translator SQL WHERE/JOIN/EXISTS -> Gallina predicates with SQLite affinity rules; regenerated on every run"),
+                    ("txnscan", "go/ast scan: transaction structure table and closure table (variables a transaction closure assigns/reads); regenerated on every run"))],
         checks=checks,
         not_applicable=[dict(property_id=p, reason=na.get(p, "check not built yet in this session (see DESIGN.md §6)"))
                         for p in props if p not in claimed],
